@@ -555,8 +555,13 @@ def exec_match(ex: Exec, st: ast.Match) -> None:
             names = [ast.unparse(pat.cls).split(".")[-1]]
             c = ex.isinstance_term(subj, names)
             if ex.branch(c, "case"):
-                if pat.patterns or pat.kwd_patterns:
-                    raise Unsupported("match class sub-patterns")
+                if pat.patterns:
+                    raise Unsupported("positional match class sub-patterns")
+                typed_subj = ex.retype(subj, ex._ty_of_classname(names[0]))
+                for attr, sub in zip(pat.kwd_attrs, pat.kwd_patterns):
+                    if not (isinstance(sub, ast.MatchAs) and sub.pattern is None and sub.name):
+                        raise Unsupported("nested match class sub-patterns")
+                    ex.locals[sub.name] = ex.attr_load(typed_subj, attr)
                 if case.guard is not None and not ex.eval_cond(case.guard):
                     continue
                 ex.exec_block(case.body)
